@@ -98,6 +98,31 @@ for (r, c) in ((2, 5), (5, 2), (1, 3), (3, 1)):
 print('RESULT', bad[:5])
 assert not bad, 'indexed access touched another element: %r' % (bad[:3],)
 ''', 'assert')
+    if fn == 'Matrix_NewFromSequence' and ob.kind == 'nooverflow':
+        return ("x = [0] * (2**31 + 3)\n"
+                "try:\n"
+                "    A = matrix(x)\n"
+                "    print('RESULT size', A.size)\n"
+                "except Exception as e:\n"
+                "    print('RESULT', type(e).__name__, e)\n", 'ubsan')
+    if fn == 'Matrix_NewFromSequence':
+        return ('''
+import pickle, copy
+bad = []
+for tc in 'idz':
+    for size in ((0, 0), (0, 3), (2, 0), (2, 2)):
+        A = matrix([], size, tc) if 0 in size else matrix(1, size, tc)
+        for B in (pickle.loads(pickle.dumps(A)), copy.copy(A),
+                  copy.deepcopy(A)):
+            if B.typecode != tc or B.size != A.size:
+                bad.append((tc, size, B.typecode, B.size))
+    L = matrix([1, 2, 3], tc=tc)
+    if L.typecode != tc or L.size != (3, 1):
+        bad.append(('list', tc, L.typecode, L.size))
+print('RESULT', bad[:5])
+assert not bad, 'constructor from a sequence lost size or typecode: %r' % (
+    bad[:3],)
+''', 'assert')
     return None, None
 
 
